@@ -239,6 +239,7 @@ def correspondence(ctx):
         npair_eq += e
         reqs.append("rd.eq %s %s" % (L.rd_wire(a), L.rd_wire(b)))
         exp.append("ok %d %d" % (e, hash(a) == hash(b)))   # hash part checked one-directionally below
+        reqs.append("rdgen.ne %s %s" % (L.rd_wire(a), L.rd_wire(b))); exp.append("ok %d" % (a != b))
     ctx.count("corr_eq_pairs_equal", npair_eq)
     # (5) applyTo on the values and their weekday re-spellings (the tie eq_applyTo rests on, inside C16's own run)
     n_add = ctx.budget(3000, 40000)
